@@ -495,7 +495,7 @@ func newScenario(cfg []string) (hx.Handler, string) {
 	}
 	s.tmp = dir
 	os.Setenv("TMPDIR", dir)
-	s.srv = httptest.NewUnstartedServer(http.HandlerFunc(s.outer))
+	s.srv = hx.NewUnstartedServer(http.HandlerFunc(s.outer))
 	s.srv.Config.ErrorLog = log.New(io.Discard, "", 0)
 	s.srv.Config.SetKeepAlivesEnabled(false)
 	s.srv.Start()
